@@ -168,6 +168,18 @@ CLAIMED: dict[str, tuple[str, str, str, str]] = {
             "Numeric identity across types (1_000_000 vs 1e6) and negative allowed entries are not exercised; "
             "Rust enum discriminants are not generated (not documented for Rust).",
             TECH),
+    "C16": ("DESIGN.md §5 C16",
+            "spec/Srp.tla defines Methods / Loc / Issues over class shapes and checks the boundary laws "
+            "(on-limit not reported, above-limit reported, blank/comment and private members irrelevant, keyword "
+            "only when switched on) over all 442k (shape, configuration) pairs; TLC emits all 12 288 shapes; "
+            "they are rendered (self-checked) into Python / TypeScript classes and Rust struct+impl blocks "
+            "(nested in functions, split and non-contiguous impl blocks), linted over a threshold grid given "
+            "directly, through per-language overrides with decoy values, on the command line, and in "
+            "mixed-language directories with distinct per-language limits; SrpTrace.tla judges Spurious / Missed / "
+            "TwoViolations / IssueList / MethodCount / LocCount per class, cross-checked with a Python mirror.",
+            "LOC = non-blank non-comment lines from header to last line (Rust: struct + all impls); TS "
+            "constructors/accessors and Rust associated functions are not generated (undocumented).",
+            TECH),
 }
 
 REASON_NOT_YET = ("no check registered yet in this build; the TLA+ technique applies (see DESIGN.md §5) "
